@@ -9,6 +9,7 @@ SPS = "iroh_dns_server::store::signed_packets::SignedPacketStore"
 
 def check(F, rep):
     rep.clause("atomic set {store row for a key, cache entry for that key}: the resolve path's fill (read store, then write the cache with what was read) and the publish path's invalidation (write store, then touch the cache) must exclude each other - one cache guard spanning the store read and the cache write - or the publish path must install the new packet so that the cache's newer-check rejects a late stale fill")
+    rep.clause("a publish invalidates every layer a query can be answered from: each cache field that ZoneCache::resolve reads is cleared for the key by ZoneCache::remove on every path")
     rep.undecided("LRU eviction and DHT TTL behaviour as values")
     r = body_of(F, rep, ZS + "::resolve")
     ins = body_of(F, rep, ZS + "::insert")
@@ -22,6 +23,21 @@ def check(F, rep):
     inv = find_calls(ins, ZC + "::remove")
     inst = find_calls(ins, ZC + "::insert")
     rep.exact("lockset", "store.upsert calls in insert", len(up), 1)
+    # ---- every cache layer a query can be answered from is invalidated by a publish
+    zr = get_fn(F, rep, ZC + "::resolve")
+    zrm = get_fn(F, rep, ZC + "::remove")
+    layers = {recv_field(zr, t["args"][0]) for b, t in zr.calls() if call_matches(t, r"::(get|peek|get_mut)$") and t["args"] and recv_field(zr, t["args"][0])}
+    rep.floor("invalidate", "cache layers ZoneCache::resolve answers from", len(layers), 2)
+    for fld in sorted(layers):
+        rm = [(b, t) for b, t in zrm.calls() if call_matches(t, r"::(pop|remove|pop_entry|invalidate|remove_entry)$") and t["args"] and recv_field(zrm, t["args"][0]) == fld]
+        key_ok = all(copy_sources(zrm, op_base(t["args"][1])) == {("arg", 2, ())} for b, t in rm)
+        uncond = any(zrm.postdominates(b, 0) for b, t in rm)
+        rep.ob("invalidate", bool(rm) and key_ok and uncond, site(zrm, rm[0][0] if rm else None),
+               "ZoneCache::remove drops the key from `%s` on every path (%d removal call(s), unconditional: %s) - resolve() answers from this layer, so an entry left behind is served after the publish was acknowledged" % (fld, len(rm), uncond),
+               skey(F, zrm, "invalidates-" + fld))
+    if inv and up:
+        uts, _ = call_result_tests(ins, up[0][0], family=None)
+        rep.ob("invalidate", len(inv) == 1 and ins.dominates(up[0][0], inv[0][0]), site(ins, inv[0][0]), "an acknowledged update invalidates the cache after the store was written", skey(F, ins, "invalidate-after-upsert"))
     if not (sg and fill and up):
         return
     du = defuse(r)
